@@ -549,6 +549,10 @@ SIM_TRACES = 600
 
 
 def replay(chk, payload):
+    if not (isinstance(payload.get("replay"), dict) and "ops" in payload["replay"]):
+        # ---- a replay file written by the RUN PART (lead): hand it to its own replay
+        from props import c13_run           # pylint: disable=import-outside-toplevel
+        return c13_run.replay_part(chk, payload)
     ses = Session(chk)
     ops = payload["replay"]["ops"]
     ses.feed("replay", ops)
